@@ -756,9 +756,22 @@ class Inliner:
                 if isinstance(st, ast.Try):
                     for hd in st.handlers:
                         hd.body = do_block(hd.body)
+                if isinstance(st, ast.FunctionDef) and cur_cls is None and not any(isinstance(x, (ast.Yield, ast.YieldFrom)) for x in ast.walk(st)):
+                    # the inner function of a decorator: its statements call the module's helpers like any other
+                    st.body = do_block(st.body)
                 if isinstance(st, (ast.FunctionDef, ast.ClassDef)):
                     out.append(st)
                     continue
+                # return H(..) if c else K(..)   ->   if c: return H(..) else: return K(..)     when an arm calls a statement helper of the module
+                if isinstance(st, ast.Return) and isinstance(st.value, ast.IfExp):
+                    arms = [st.value.body, st.value.orelse]
+                    hs = [self.lookup(a, cur_cls)[0] if isinstance(a, ast.Call) else None for a in arms]
+                    if any(h_ is not None and not h_.is_expr for h_ in hs):
+                        split = ast.copy_location(ast.If(test=st.value.test, body=do_block([ast.copy_location(ast.Return(value=arms[0]), st)]),
+                                                         orelse=do_block([ast.copy_location(ast.Return(value=arms[1]), st)])), st)
+                        out.append(split)
+                        changed = True
+                        continue
                 pre = []
                 # whole-statement forms
                 call = None
@@ -823,6 +836,47 @@ class Inliner:
                         self.inlined_sites[key] = self.inlined_sites.get(key, 0) + 1
                         changed = True
                         hc = hc[1:]
+                    # return CTX[helper(..)] with CTX free of other calls: the helper's statements, each `return X` of it becoming `return CTX[X]`
+                    # (CTX only reads names / attributes / items; a helper that stores to attributes is left to the binding form below)
+                    if len(hc) == 1 and hc[0] is not root and isinstance(st, ast.Return) and not any(isinstance(n, (ast.Call, ast.NamedExpr, ast.Lambda, ast.IfExp, ast.BoolOp)) and n is not hc[0] for n in ast.walk(root)) \
+                            and not any(isinstance(n, ast.Attribute) and isinstance(n.ctx, ast.Store) for n in ast.walk(self.lookup(hc[0], cur_cls)[0].node)) \
+                            and not any(isinstance(n, (ast.Yield, ast.YieldFrom)) for n in ast.walk(self.lookup(hc[0], cur_cls)[0].node)):
+                        target_call = hc[0]
+                        h, recv = self.lookup(target_call, cur_cls)
+                        pre2 = []
+                        new = self.inline_stmt(h, target_call, recv, "return", None, pre2)
+                        if new is not None and not any(isinstance(r_, ast.Return) and r_.value is None for s_ in new for r_ in ast.walk(s_)):
+                            for s_ in new:
+                                for r_ in ast.walk(s_):
+                                    if isinstance(r_, ast.Return):
+                                        val = r_.value
+
+                                        class Wrap(ast.NodeTransformer):
+                                            def visit_Call(self, n):
+                                                if n is target_call:
+                                                    return val
+                                                self.generic_visit(n)
+                                                return n
+                                        # one fresh copy of the context per return site (the helper call node is shared: find it by position)
+                                        ctx_copy = copy.deepcopy(root)
+                                        orig_nodes = list(ast.walk(root))
+                                        copy_nodes = list(ast.walk(ctx_copy))
+                                        tc_copy = copy_nodes[[id(x) for x in orig_nodes].index(id(target_call))]
+
+                                        class Wrap2(ast.NodeTransformer):
+                                            def visit_Call(self, n):
+                                                if n is tc_copy:
+                                                    return val
+                                                self.generic_visit(n)
+                                                return n
+                                        r_.value = Wrap2().visit(ctx_copy)
+                            for s_ in pre2 + new:
+                                ast.copy_location(s_, st) if not hasattr(s_, "lineno") else None
+                            out += pre2 + new
+                            key = (h.cls, h.node.name)
+                            self.inlined_sites[key] = self.inlined_sites.get(key, 0) + 1
+                            changed = True
+                            continue
                     if len(hc) == 1 and (hc[0] is not root or root_field in ("iter", "test")):
                         target_call = hc[0]
                         others = [n for n in ast.walk(root) if isinstance(n, ast.Call) and n is not target_call]
@@ -1199,6 +1253,110 @@ def import_private_methods(tree, trees, pkg, modname):
     return done
 
 
+def flag_and_loops(tree):
+    """v = True; for n in (c1, c2, ..): if not v: break; v = E(n)      ==>   v = E(c1) and E(c2) and ..
+    (the loop evaluates E for one constant after the other and stops at the first falsy result, which it leaves in v: an `and` chain)"""
+    n_ = 0
+    for holder in ast.walk(tree):
+        for field in ("body", "orelse", "finalbody"):
+            blk = getattr(holder, field, None)
+            if not isinstance(blk, list) or len(blk) < 2 or not all(isinstance(b, ast.stmt) for b in blk):
+                continue
+            i = 0
+            while i + 1 < len(blk):
+                a, lp = blk[i], blk[i + 1]
+                i += 1
+                if not (isinstance(a, ast.Assign) and len(a.targets) == 1 and isinstance(a.targets[0], ast.Name) and isinstance(a.value, ast.Constant) and a.value.value is True):
+                    continue
+                v = a.targets[0].id
+                if not (isinstance(lp, ast.For) and not lp.orelse and isinstance(lp.target, ast.Name) and isinstance(lp.iter, (ast.Tuple, ast.List)) and 0 < len(lp.iter.elts) <= 16
+                        and all(isinstance(e, ast.Constant) for e in lp.iter.elts) and len(lp.body) == 2):
+                    continue
+                g, st = lp.body
+                if not (isinstance(g, ast.If) and not g.orelse and len(g.body) == 1 and isinstance(g.body[0], ast.Break) and isinstance(g.test, ast.UnaryOp) and isinstance(g.test.op, ast.Not)
+                        and isinstance(g.test.operand, ast.Name) and g.test.operand.id == v):
+                    continue
+                if not (isinstance(st, ast.Assign) and len(st.targets) == 1 and isinstance(st.targets[0], ast.Name) and st.targets[0].id == v
+                        and not any(isinstance(y, ast.Name) and y.id == v for y in ast.walk(st.value)) and not any(isinstance(y, ast.NamedExpr) for y in ast.walk(st.value))):
+                    continue
+                name = lp.target.id
+                if any(isinstance(y, ast.Name) and y.id == name for b in blk[i + 1:] for y in ast.walk(b)):
+                    continue
+                vals = []
+                for c in lp.iter.elts:
+                    class S(ast.NodeTransformer):
+                        def visit_Name(self, node):
+                            return copy.deepcopy(c) if node.id == name and isinstance(node.ctx, ast.Load) else node
+                    vals.append(S().visit(copy.deepcopy(st.value)))
+                a.value = vals[0] if len(vals) == 1 else ast.BoolOp(op=ast.And(), values=vals)
+                del blk[i]
+                n_ += 1
+    if n_:
+        ast.fix_missing_locations(tree)
+    return n_
+
+
+def sink_none_tests(tree):
+    """if a: v = 'why' elif b: v = None else: v = f'..'          ==>   if a: v = 'why'; BODY  elif b: v = None  else: v = f'..'; BODY
+       if v is not None: BODY
+    Every leaf of the if-chain ends by binding v to a string literal / f-string (never None) or to None, and the statement right
+    after the chain tests `v is not None` (or `v is None: .. else: BODY`): the test is decided in each leaf."""
+    n_ = 0
+
+    def leaves(stmts, out):
+        """collect (block, index of last stmt) of every leaf; False when some leaf does not end in `v = ..`"""
+        if not stmts:
+            return False
+        last = stmts[-1]
+        if isinstance(last, ast.If) and last.orelse:
+            return leaves(last.body, out) and leaves(last.orelse, out)
+        out.append(stmts)
+        return True
+
+    for holder in ast.walk(tree):
+        for field in ("body", "orelse", "finalbody"):
+            blk = getattr(holder, field, None)
+            if not isinstance(blk, list) or len(blk) < 2 or not all(isinstance(b, ast.stmt) for b in blk):
+                continue
+            i = 0
+            while i + 1 < len(blk):
+                chain, test = blk[i], blk[i + 1]
+                i += 1
+                if not (isinstance(chain, ast.If) and chain.orelse and isinstance(test, ast.If)):
+                    continue
+                t = test.test
+                if not (isinstance(t, ast.Compare) and len(t.ops) == 1 and isinstance(t.ops[0], (ast.Is, ast.IsNot)) and isinstance(t.left, ast.Name)
+                        and isinstance(t.comparators[0], ast.Constant) and t.comparators[0].value is None):
+                    continue
+                v = t.left.id
+                some, none = (test.body, test.orelse) if isinstance(t.ops[0], ast.IsNot) else (test.orelse, test.body)
+                ls = []
+                if not leaves([chain], ls):
+                    continue
+                kinds = []
+                for leaf in ls:
+                    a = leaf[-1]
+                    if not (isinstance(a, ast.Assign) and len(a.targets) == 1 and isinstance(a.targets[0], ast.Name) and a.targets[0].id == v):
+                        kinds = None
+                        break
+                    if isinstance(a.value, ast.Constant) and a.value.value is None:
+                        kinds.append("none")
+                    elif isinstance(a.value, ast.JoinedStr) or (isinstance(a.value, ast.Constant) and isinstance(a.value.value, (str, bytes, int, float, bool, tuple))):
+                        kinds.append("some")
+                    else:
+                        kinds = None
+                        break
+                if not kinds:
+                    continue
+                for leaf, k in zip(ls, kinds):
+                    leaf.extend(copy.deepcopy(some if k == "some" else none))
+                del blk[i]
+                n_ += 1
+    if n_:
+        ast.fix_missing_locations(tree)
+    return n_
+
+
 def protective_enter(tree):
     """def __enter__(self): try: BODY  except BaseException: <release what was acquired>; raise       ==>   def __enter__(self): BODY
     The wrapper only matters when BODY fails (then it closes the handle, resets flags and re-raises); on every path that enters
@@ -1208,15 +1366,17 @@ def protective_enter(tree):
     for cls in [c for c in tree.body if isinstance(c, ast.ClassDef)]:
         for fn in [m for m in cls.body if isinstance(m, ast.FunctionDef) and m.name == "__enter__"]:
             body = strip_doc(fn.body)
-            if len(body) == 1 and isinstance(body[0], ast.Try) and not body[0].orelse and not body[0].finalbody and body[0].handlers \
+            if body and isinstance(body[0], ast.Try) and not any(isinstance(x, ast.Try) for b in body[1:] for x in ast.walk(b)) and not body[0].finalbody and body[0].handlers \
                     and all(h.body and isinstance(h.body[-1], ast.Raise) and h.body[-1].exc is None for h in body[0].handlers):
                 harmless = True
                 for h in body[0].handlers:
                     for x in ast.walk(h):
-                        if isinstance(x, ast.Call) and not (ast.unparse(x.func) in ("getattr", "hasattr", "self.__exit__") or (isinstance(x.func, ast.Attribute) and x.func.attr == "close")):
+                        # whatever the handler does to release things, it must not write: that would be an effect of entering a context
+                        if isinstance(x, ast.Call) and isinstance(x.func, ast.Attribute) and x.func.attr in ("write", "writelines", "truncate", "bwrite", "_write", "bpad", "seek", "unlink", "rename", "replace"):
                             harmless = False
                 if harmless:
-                    fn.body = [b for b in fn.body if b is not body[0]] + body[0].body
+                    # the handlers never fall through, so what follows the try statement follows its body
+                    fn.body = [b for b in fn.body if b not in body] + body[0].body + body[0].orelse + body[1:]
                     n += 1
     if n:
         ast.fix_missing_locations(tree)
@@ -1368,6 +1528,7 @@ def normalise_module(tree: ast.Module):
     info["constants"] = len(mod) + sum(len(v) for v in classes.values())
     if mod or classes:
         ConstSubst(mod, classes, bases).visit(tree)
+    flag_and_loops(tree)
     info["closures"] = inline_closures(tree)
     info["private_properties"] = inline_private_properties_anywhere(tree)
     info["private_properties"] += inline_private_properties(tree)
@@ -1382,8 +1543,12 @@ def normalise_module(tree: ast.Module):
         info["protective_enter"] = 1
         _inline_helpers(tree, bases, info)
     LoopNorm().visit(tree)
+    sink_none_tests(tree)
     info["copyprop_rounds"] = normalise_functions(tree)
     ast.fix_missing_locations(tree)
+    from .normalize2 import empty_guards
+    if empty_guards(tree):
+        info["copyprop_rounds"] += normalise_functions(tree)
     # records, single-use temporaries and class dispatch tables: each simplification can enable the others
     from .normalize2 import Desugar
     for _round in range(3):
@@ -1397,11 +1562,16 @@ def normalise_module(tree: ast.Module):
         for fn in [n for n in ast.walk(tree) if isinstance(n, ast.FunctionDef)]:
             again |= ForwardTemps().run(fn)
         ast.fix_missing_locations(tree)
+        from .normalize2 import dict_records
+        if dict_records(tree):
+            again = True
+            positional_args(tree)
         again |= DispatchSplit(CLASS_NAMES).run(tree)
         # closures that were values of a dispatch table are direct calls after unrolling and propagation
         again |= bool(inline_closures(tree))
         # helper calls that only became direct calls now (partial(f, a)(b) -> f(a, b))
         again |= _inline_helpers(tree, bases, info)
+        again |= bool(sink_none_tests(tree))
         if not again:
             break
         ast.fix_missing_locations(tree)
@@ -2099,6 +2269,26 @@ class Canon(ast.NodeTransformer):
                 if len(set(map(repr, vals.values()))) == len(vals):
                     same = a_.attr == b_.attr
                     return ast.copy_location(ast.Constant(value=same if isinstance(node.ops[0], (ast.Is, ast.Eq)) else not same), node)
+        # x in [E for v in XS if E != K]   ==>   x != K and x in [E for v in XS]        (x, K free of v and of calls; K an enum member / literal)
+        # x not in [..same..]              ==>   x == K or x not in [E for v in XS]
+        if len(node.ops) == 1 and isinstance(node.ops[0], (ast.In, ast.NotIn)) and isinstance(node.comparators[0], (ast.ListComp, ast.SetComp, ast.GeneratorExp)) \
+                and len(node.comparators[0].generators) == 1 and len(node.comparators[0].generators[0].ifs) == 1:
+            comp = node.comparators[0]
+            g = comp.generators[0]
+            c = g.ifs[0]
+            bound = {x.id for x in ast.walk(g.target) if isinstance(x, ast.Name)}
+            if isinstance(c, ast.Compare) and len(c.ops) == 1 and isinstance(c.ops[0], ast.NotEq) and _pure_expr(node.left) and not any(isinstance(x, ast.Call) for x in ast.walk(node.left)) \
+                    and not any(isinstance(x, ast.Name) and x.id in bound for x in ast.walk(node.left)):
+                for a_, k_ in ((c.left, c.comparators[0]), (c.comparators[0], c.left)):
+                    is_k = (isinstance(k_, ast.Constant) and k_.value is not None) or (isinstance(k_, ast.Attribute) and isinstance(k_.value, ast.Name) and k_.value.id[:1].isupper())
+                    if is_k and ast.dump(a_) == ast.dump(comp.elt):
+                        bare = type(comp)(elt=comp.elt, generators=[ast.comprehension(target=g.target, iter=g.iter, ifs=[], is_async=0)])
+                        member = ast.Compare(left=node.left, ops=[node.ops[0]], comparators=[bare])
+                        if isinstance(node.ops[0], ast.In):
+                            new = ast.BoolOp(op=ast.And(), values=[ast.Compare(left=copy.deepcopy(node.left), ops=[ast.NotEq()], comparators=[copy.deepcopy(k_)]), member])
+                        else:
+                            new = ast.BoolOp(op=ast.Or(), values=[ast.Compare(left=copy.deepcopy(node.left), ops=[ast.Eq()], comparators=[copy.deepcopy(k_)]), member])
+                        return ast.fix_missing_locations(ast.copy_location(new, node))
         # None == K / None != K  with K a literal that is not None
         def _lit(e):
             # (.. or the shape of an array / dtype: always a tuple)
@@ -2415,6 +2605,18 @@ class Canon(ast.NodeTransformer):
 
     def visit_Subscript(self, node):
         self.generic_visit(node)
+        # XS[next(i for (i, x) in enumerate(XS) if C(x))]   ==>   next(x for x in XS if C(x))     (XS a name / attribute chain, i not read by C)
+        if isinstance(node.ctx, ast.Load) and isinstance(node.slice, ast.Call) and ast.unparse(node.slice.func) == "next" and len(node.slice.args) == 1 and not node.slice.keywords \
+                and isinstance(node.slice.args[0], ast.GeneratorExp) and len(node.slice.args[0].generators) == 1 and simple_arg(node.value) and not isinstance(node.value, ast.Constant):
+            ge = node.slice.args[0]
+            g = ge.generators[0]
+            if isinstance(g.iter, ast.Call) and ast.unparse(g.iter.func) == "enumerate" and len(g.iter.args) == 1 and not g.iter.keywords and ast.dump(g.iter.args[0]) == ast.dump(node.value) \
+                    and isinstance(g.target, ast.Tuple) and len(g.target.elts) == 2 and isinstance(g.target.elts[0], ast.Name) and isinstance(ge.elt, ast.Name) and ge.elt.id == g.target.elts[0].id \
+                    and not any(isinstance(y, ast.Name) and y.id == ge.elt.id for c_ in g.ifs for y in ast.walk(c_)) and isinstance(g.target.elts[1], ast.Name):
+                x_ = g.target.elts[1]
+                new = ast.Call(func=node.slice.func, args=[ast.GeneratorExp(elt=ast.Name(id=x_.id, ctx=ast.Load()),
+                                                                            generators=[ast.comprehension(target=x_, iter=g.iter.args[0], ifs=g.ifs, is_async=0)])], keywords=[])
+                return ast.fix_missing_locations(ast.copy_location(new, node))
         # next(((A, B) for ..)[, (DA, DB)])[k]   ==>   next((<k-th> for ..)[, <k-th default>])
         if isinstance(node.ctx, ast.Load) and isinstance(node.slice, ast.Constant) and isinstance(node.slice.value, int) and isinstance(node.value, ast.Call) \
                 and ast.unparse(node.value.func) == "next" and node.value.args and isinstance(node.value.args[0], ast.GeneratorExp) and isinstance(node.value.args[0].elt, ast.Tuple) \
@@ -2537,6 +2739,19 @@ class Canon(ast.NodeTransformer):
             bound = {x.id for x in ast.walk(g.target) if isinstance(x, ast.Name)}
             tnames = {x.id for x in ast.walk(node.target) if isinstance(x, ast.Name)}
             stored = {x.id for s_ in node.body for x in ast.walk(s_) if isinstance(x, ast.Name) and isinstance(x.ctx, ast.Store)}
+            # for (a, b, p) in [(a, b, E) for b in ..]: the positions that hand a generator variable back under its own name bind nothing new
+            if (bound & tnames) and not (bound & stored) and isinstance(node.target, ast.Tuple) and isinstance(itc.elt, ast.Tuple) and len(node.target.elts) == len(itc.elt.elts) \
+                    and all(isinstance(t, ast.Name) for t in node.target.elts) and len({t.id for t in node.target.elts}) == len(node.target.elts):
+                same = [isinstance(e, ast.Name) and e.id == t.id for t, e in zip(node.target.elts, itc.elt.elts)]
+                # every other position must not read a name that an earlier position of this very assignment would have re-bound: identity positions re-bind nothing
+                if all(sm or t.id not in bound for t, sm in zip(node.target.elts, same)) and not all(same):
+                    keep = [(t, e) for t, e, sm in zip(node.target.elts, itc.elt.elts, same) if not sm]
+                    if len(keep) == 1:
+                        node.target, itc.elt = keep[0]
+                    else:
+                        node.target = ast.Tuple(elts=[k[0] for k in keep], ctx=ast.Store())
+                        itc.elt = ast.Tuple(elts=[k[1] for k in keep], ctx=ast.Load())
+                    tnames = {x.id for x in ast.walk(node.target) if isinstance(x, ast.Name)}
             if not (bound & (tnames | stored)):
                 tgt = copy.deepcopy(g.target)
                 for x in ast.walk(tgt):
